@@ -190,10 +190,17 @@ def check_envelope(ctx, f, R='S'):
                     continue
                 n += 1
                 found += 1
-                pc = case_atoms(msg, (('2', 'option', has),)) + tuple(a for b in hook.bases for a in case_atoms(b, case)) + o.st.pc
-                env2 = {'elems': [], 'pc': pc}
                 sh = to_shape(wr[0][2][1])
+                # the member of the partition as path-condition atoms: about the list, and about the generic control - the term the
+                # encoder read the fixed fields of and the element the repeated item runs over (an encoder that never looks at a
+                # field is judged for every value of it all the same)
+                ctls = hook.bases + [m[2] for m in many_nodes(sh) if m[2] not in hook.bases]
+                pc = case_atoms(msg, (('2', 'option', has),)) + tuple(a for b in ctls for a in case_atoms(b, case)) + o.st.pc
+                env2 = {'elems': [], 'pc': pc}
                 mism = compare(sh, ENVELOPE, pc, env2)
+                und = undecided_optionals(ENVELOPE, pc) if has and many_nodes(sh) else []
+                if und:
+                    mism = mism + ['the presence of %s is not decided for this member of the partition' % ', '.join(und)]      # (fail closed)
                 ctx.add(R + '13.envelope-shape', what, loc(E.root), not mism, ('for a message with %s: ' % what) + ('; '.join(mism)[:400] or 'matches RFC 4511'))
                 if has:
                     rep = many_nodes(sh)
